@@ -79,7 +79,7 @@ def check_declared(op: Any) -> None:
 
 
 def case(rng: Any, ctx: Ctx, index: int) -> None:
-    s, op = rand_operator(rng, ctx, atoms=0.35, lazy_inverse=bool(rng.integers(4) == 0))
+    s, op = rand_operator(rng, ctx, atoms=0.35, lazy_inverse=bool(rng.integers(4) == 0), index=index)
     override = type(op).out_structure is not AbstractLinearOperator.out_structure
     dts = sorted({np.dtype(l.dtype).name for l in dense.leaves(s)})
     LOG.case_key(f'{dense.skeleton(op)}|{"+".join(dts)}|x64={ctx.x64}|{struct_kind(s)}', override)
